@@ -90,7 +90,10 @@ type c14Coll struct {
 	build func(w *model.World)
 	tail  bool
 	big   bool // megabytes of state: write errors surface while blocks are being written, not only at the final flush
+	spec  genSpec
 }
+
+func (c c14Coll) config() model.Config { return c.spec.config(0) }
 
 type c14Built struct {
 	c      c14Coll
@@ -100,7 +103,7 @@ type c14Built struct {
 }
 
 func (c c14Coll) world() *model.World {
-	w := model.NewWorld(genSpec{}.config(0))
+	w := model.NewWorld(c.config())
 	c.build(w)
 	return w
 }
@@ -110,6 +113,10 @@ func (c c14Coll) tailFn(w *model.World) func() {
 		return nil
 	}
 	return func() {
+		if c.spec.keyed {
+			w.Txn([]model.Act{{Op: "insertkey", Key: "tail", W: []model.Write{{Col: "n", V: model.Val{N: 42}}, {Col: "s", V: model.Val{S: "tail"}}}}}, false)
+			return
+		}
 		w.Txn([]model.Act{{Op: "insert", W: []model.Write{{Col: "n", V: model.Val{N: 42}}, {Col: "s", V: model.Val{S: "tail"}}}}}, false)
 	}
 }
@@ -132,6 +139,12 @@ func (c c14Coll) measure() *c14Built {
 // *os.File would otherwise be closed by its finalizer at an arbitrary time) and
 // reports the change in open descriptors and temp files.
 func snapshotCounted(w *model.World, dst interface{ Write([]byte) (int, error) }) (err error, dfd, dtmp int, panicked any) {
+	return snapshotCountedEnv(w, dst, nil, nil)
+}
+
+// snapshotCountedEnv: pre/post run inside the counted window, right around the call
+// (used to make the environment fail: an unusable temp directory).
+func snapshotCountedEnv(w *model.World, dst interface{ Write([]byte) (int, error) }, pre, post func()) (err error, dfd, dtmp int, panicked any) {
 	// let finalizers of earlier garbage (files leaked by earlier calls) run first, so
 	// that nothing closes a descriptor inside the counted window
 	for i := 0; i < 3; i++ {
@@ -149,6 +162,12 @@ func snapshotCounted(w *model.World, dst interface{ Write([]byte) (int, error) }
 				panicked = r
 			}
 		}()
+		if pre != nil {
+			pre()
+		}
+		if post != nil {
+			defer post()
+		}
 		err = w.C.Snapshot(dst)
 	}()
 	return err, countFDs() - fd0, countTemp() - t0, panicked
@@ -178,7 +197,33 @@ func (b *c14Built) run(byCall bool, at int, forever bool) (key string, nontrivia
 		return "warmup-failed", true, nil, []eng.Violation{{Assert: "snapshot/healthy", Witness: "a snapshot to a healthy writer fails", Detail: fmt.Sprintf("%s: warm-up snapshot err=%v panic=%v", desc, err, p)}}
 	}
 	fw := &faultWriter{byCall: byCall, at: at, forever: forever, fire: b.c.tailFn(w)}
-	err, dfd, dtmp, p := snapshotCounted(w, fw)
+	var err error
+	var dfd, dtmp int
+	var p any
+	if at == c14NoTemp {
+		// environment fault: the directory for temporary files cannot be used, so the
+		// snapshot cannot open the file it records concurrent commits in
+		desc = fmt.Sprintf("%s: temporary directory unusable", b.c.name)
+		oldTmp, had := os.LookupEnv("TMPDIR")
+		pre := func() { os.Setenv("TMPDIR", filepath.Join(os.TempDir(), "verif-no-such-directory")) }
+		post := func() {
+			if had {
+				os.Setenv("TMPDIR", oldTmp)
+			} else {
+				os.Unsetenv("TMPDIR")
+			}
+		}
+		err, dfd, dtmp, p = snapshotCountedEnv(w, fw, pre, post)
+		if p == nil && err == nil {
+			vs = append(vs, eng.Violation{Assert: "snapshot/reports-error", Witness: "Snapshot returns nil although its temporary file could not be created", Detail: desc})
+		}
+		fw.failed = 1 // (the environment failed, not the writer: the call is a failed one)
+		if err == nil {
+			fw.failed = 0
+		}
+	} else {
+		err, dfd, dtmp, p = snapshotCounted(w, fw)
+	}
 	sample = map[string]any{"case": desc, "writer_failures": fw.failed, "snapshot_error": fmt.Sprint(err), "fd_delta": dfd, "temp_delta": dtmp}
 	if p != nil {
 		w.Poisoned = true
@@ -204,6 +249,9 @@ func (b *c14Built) run(byCall bool, at int, forever bool) (key string, nontrivia
 	}
 	// the collection keeps working: a transaction that commits into EVERY block
 	acts := []model.Act{{Op: "insert", W: []model.Write{{Col: "n", V: model.Val{N: 7}}, {Col: "e", V: model.Val{S: "x"}}}}}
+	if b.c.spec.keyed {
+		acts = []model.Act{{Op: "insertkey", Key: "after", W: []model.Write{{Col: "n", V: model.Val{N: 7}}}}}
+	}
 	seenBlk := map[uint32]bool{}
 	for _, off := range w.M.Offsets() {
 		if !seenBlk[off>>14] {
@@ -257,7 +305,7 @@ func (b *c14Built) run(byCall bool, at int, forever bool) (key string, nontrivia
 		vs = append(vs, eng.Violation{Assert: "leak/tempfile", Witness: leakWitness(false, "temp file"),
 			Detail: fmt.Sprintf("%s: the later healthy Snapshot changed column_*.log files by %+d", desc, dtmp2)})
 	}
-	t := w.Twin(genSpec{}.config(0), true)
+	t := w.Twin(b.c.config(), true)
 	defer t.Close()
 	if err := t.C.Restore(bytes.NewReader(good.Bytes())); err != nil {
 		vs = append(vs, eng.Violation{Assert: "usable/restore", Witness: "the later snapshot does not restore", Detail: fmt.Sprintf("%s: %v", desc, err)})
@@ -286,6 +334,9 @@ func within(d time.Duration, f func()) bool {
 
 const c14Patience = 30 * time.Second
 
+// c14NoTemp as the failing index selects the environment fault instead of a writer fault.
+const c14NoTemp = -2
+
 func leakWitness(failed bool, what string) string {
 	if failed {
 		return "a failed snapshot leaves a " + what + " behind"
@@ -305,6 +356,11 @@ func c14Colls() []c14Coll {
 		{name: "one-block+commit-during-snapshot", build: one, tail: true},
 		{name: "two-blocks", build: two},
 		{name: "two-blocks+commit-during-snapshot", build: two, tail: true},
+		{name: "two-blocks+sorted-index+trigger+commit-during-snapshot", build: two, tail: true, spec: genSpec{comp: true}},
+		{name: "keyed-two-blocks+commit-during-snapshot", spec: genSpec{keyed: true}, tail: true, build: func(w *model.World) {
+			w.SeedReplay(map[uint32][]model.Write{5: {{Col: "key", V: model.Val{S: "s0"}}, {Col: "n", V: V(2)}, {Col: "s", V: model.Val{S: "a"}}},
+				16384 + 7: {{Col: "key", V: model.Val{S: "s1"}}, {Col: "n", V: V(2)}, {Col: "s", V: model.Val{S: "a"}}}})
+		}},
 		{name: "two-blocks-3MB", big: true, build: func(w *model.World) {
 			rows := map[uint32][]model.Write{}
 			for i := 0; i < 24; i++ {
@@ -320,8 +376,8 @@ func init() {
 	eng.Register(&eng.Check{
 		Prop:  "C14",
 		Level: "fault_enumeration",
-		Rule: "fault sequences = for each collection (empty / one block / two blocks, with and without a transaction committed while the snapshot is being written) EVERY write-call index " +
-			"k = 0..K+1 and EVERY byte budget n = 0..|B| at which the destination starts failing (short write), failing once and failing forever; each followed by a committing transaction, a " +
+		Rule: "fault sequences = for each collection (empty / one block / two blocks, with and without a transaction committed while the snapshot is being written; also with a sorted index and a trigger, and keyed) EVERY write-call index " +
+			"k = 0..K+1 and EVERY byte budget n = 0..|B| at which the destination starts failing (short write), failing once and failing forever, and the environment fault 'temporary directory unusable'; each followed by a committing transaction, a " +
 			"Snapshot to a healthy writer and a Restore of it. Oracle: the failing call returns non-nil iff the writer returned an error; the transaction commits and is visible; the healthy " +
 			"snapshot returns nil and restores to the model; open descriptors (/proc/self/fd) and column_*.log files in the private TMPDIR are unchanged across EVERY Snapshot call (GC off " +
 			"while counting). distinct = distinct (collection, reached/not-reached) classes",
@@ -332,6 +388,9 @@ func init() {
 				c := c
 				built := c.measure() // eager, fixed order: same sizes in every process
 				get := func() *c14Built { return built }
+				units = append(units, &eng.FlatSpec{UnitName: c.name + "/tempdir-unusable", Prop: "C14", Chunk: 1, Outcomes: true,
+					N:    func() int { return 1 },
+					Case: func(i int) (string, bool, any, []eng.Violation) { return get().run(true, c14NoTemp, false) }})
 				for _, forever := range []bool{false, true} {
 					forever := forever
 					mode := "once"
